@@ -2,6 +2,25 @@ import Ase
 
 open Ase
 
+def cfgOf (profile : String) : Gen.Cfg :=
+  match profile with
+  | "struct" => {}
+  | "plain" => { padding := false, ignorable := false, permuteCels := false }
+  | "render" => { maxW := 9, maxH := 7, maxLayers := 8, tags := false, slices := false,
+                  extFiles := false, userData := false }
+  | "rgba" => { depth := 32 }
+  | "gray" => { depth := 16 }
+  | "indexed" => { depth := 8 }
+  | "tiles" => { maxLayers := 3, tags := false, slices := false, extFiles := false }
+  | _ => {}
+
+def emitCase (out : IO.FS.Stream) (verbose : Bool) (m : Profile) (id : String) (bs : Bytes) : IO Unit := do
+  out.putStrLn s!"CASE {id}"
+  let r := parse Zlib.inflate m bs
+  for l in Obs.load verbose m r do
+    out.putStrLn l
+  out.putStrLn "END"
+
 partial def loop (h : IO.FS.Stream) (out : IO.FS.Stream) (m : Profile) : IO Unit := do
   let line ← h.getLine
   if line.isEmpty then return ()
@@ -10,16 +29,22 @@ partial def loop (h : IO.FS.Stream) (out : IO.FS.Stream) (m : Profile) : IO Unit
   | ["PROFILE", p] =>
       let m' := if p == "checked" then Profile.checked else Profile.release
       loop h out m'
+  | ["GEN", profile, seed, count] =>
+      -- emit `count` generated cases: the input bytes and the model's observation
+      let cfg := cfgOf profile
+      let seed := seed.toNat!
+      for i in [0:count.toNat!] do
+        let p := Gen.run (seed * 1000003 + i) (Gen.programG cfg)
+        let bs := Spec.encode p
+        out.putStrLn s!"INPUT {profile}-{seed}-{i} {Obs.hex bs}"
+        emitCase out false m s!"{profile}-{seed}-{i}" bs
+      out.flush
+      loop h out m
   | [cmd, id, hx] =>
       if cmd == "LOAD" || cmd == "LOADV" then
-        out.putStrLn s!"CASE {id}"
         match Obs.unhex hx with
-        | none => out.putStrLn "bad-hex"
-        | some bs =>
-            let r := parse Zlib.inflate m bs
-            for l in Obs.load (cmd == "LOADV") m r do
-              out.putStrLn l
-        out.putStrLn "END"
+        | none => do out.putStrLn s!"CASE {id}"; out.putStrLn "bad-hex"; out.putStrLn "END"
+        | some bs => emitCase out (cmd == "LOADV") m id bs
         out.flush
       else
         out.putStrLn "bad-op"
